@@ -10,6 +10,13 @@ import (
 func appendStackTrace(e *object.PanErr, src *ast.Source) *object.PanErr {
 	var out bytes.Buffer
 
+	// NOTE: `_` is shared by the whole interpreter (consts and props hold the same object).
+	// Write the stack trace to a copy, otherwise it remains in every later evaluation
+	if e == object.BuiltInNotImplemented {
+		copied := *e
+		e = &copied
+	}
+
 	stackTrace := parseSrc(src)
 	// NOTE: if stackTrace is same as previous one, just ignore it
 	if strings.HasSuffix(e.StackTrace, stackTrace) {
